@@ -6,7 +6,7 @@ def main():
     w = build_world()
     pats = sys.argv[1:]
     verbose = "-v" in pats
-    pats = [p for p in pats if p != "-v"]
+    pats = [p for p in pats if p not in ("-v", "-m")]
     for fq, c in w.contracts.items():
         if pats and not any(p in fq for p in pats):
             continue
@@ -26,6 +26,8 @@ def main():
             print("   FAIL", o["name"], f"{o['discharged']}/{o['instances']}")
             for f in o["failed"][:2]:
                 m = f["model"] or {}
-                print("      path", f["path"], f["verdict"], f["info"] or "", {k: v for k, v in list(m.items())[:14]})
+                print("      path", f["path"], f["verdict"], f["info"] or "", "SUBGOAL:", str(m.get("_subgoal"))[:200].replace("\n", " "), "known=" + str(f.get("known")))
+                if "-m" in sys.argv:
+                    print("         ", {k: v for k, v in list(m.items())[:40] if not k.startswith("_")})
 
 main()
